@@ -287,6 +287,36 @@ func c13NumeralCheck(c *fw.Ctx, text string) *fw.Violation {
 	return nil
 }
 
+// c13PrintComma: the two places where a newline is not layout -- directly after print / return and after a comma of a print
+// list it ends the statement: the text on the left behaves as the text on the right.
+var c13PrintCommaPairs = [][2]string{
+	{"BEGIN {\n print 1,\n 2\n print \"x\"\n}", "BEGIN {\n print 1\n 2\n print \"x\"\n}"},
+	{"BEGIN {\n a = 5\n print \"v\", a,\n a = 6\n print a\n}", "BEGIN {\n a = 5\n print \"v\", a\n a = 6\n print a\n}"},
+	{"{ print $,\r\n\t$ + 1\n print \"next\" }", "{ print $\n $ + 1\n print \"next\" }"},
+	{"BEGIN { print 1, # list goes on?\n 2\n}", "BEGIN { print 1\n 2\n}"},
+	{"BEGIN { print\n 7\n print \"y\" }", "BEGIN { print ; 7\n print \"y\" }"},
+	{"function f(a) { if (a) return\n a = 9\n return a }\nBEGIN { print f(1), f(0) }", "function f(a) { if (a) return ; a = 9\n return a }\nBEGIN { print f(1), f(0) }"},
+	{"function g(a) { if (a) { return\n [a]\n } return 2 }\nBEGIN { print g(1) is null, g(0) }", "function g(a) { if (a) { return ; [a]\n } return 2 }\nBEGIN { print g(1) is null, g(0) }"},
+}
+
+func c13PrintComma(c *fw.Ctx, i int) *fw.Violation {
+	pair := c13PrintCommaPairs[i]
+	var outs [2]drive.Outcome
+	for k, text := range pair {
+		outs[k] = run(c, drive.Spec{Program: text, Files: []drive.File{{Name: "in.json", Data: "[1,2]"}}})
+		outs[k].Ev = nil
+	}
+	c.Traces++
+	c.Transitions += 2
+	if outs[1].Kind != drive.KNone {
+		return &fw.Violation{What: "layout: the reference spelling of a print / return followed by a line break does not run", Detail: map[string]any{"program": pair[1], "got": outs[1]}}
+	}
+	if outs[0].Kind != outs[1].Kind || outs[0].Stdout != outs[1].Stdout {
+		return &fw.Violation{What: "layout: a newline directly after print / return or after a comma of a print list does not end the statement", Detail: map[string]any{"program": pair[0], "behaves_like": pair[1], "got": outs[0], "want": outs[1]}}
+	}
+	return nil
+}
+
 // c13LongCheck: a string literal, a name and a regex literal of n bytes denote all their bytes.
 func c13LongCheck(c *fw.Ctx, n int, q string) *fw.Violation {
 	body := strings.Repeat("ab", n/2) + strings.Repeat("c", n%2)
@@ -346,7 +376,7 @@ func init() {
 		Rule: fmt.Sprintf("(i) %d seed programs (every statement and expression form) as token lists: every gap x its permitted deviations (two blanks, tab, CR, newline and comment+newline where DESIGN.md 3.18 allows a line break, ';' / blank lines / CRLF / a comment for statement separators) and every pair of such deviations (thorough: triples on the gaps of a line-break-only deviation set); ", ns) +
 			"oracle: same stdout, outcome and JSON output as the canonical layout (which the model confirms); (ii) every ordered pair and triple of the 66 token spellings written without blanks, and with one blank, through the lexer hook against a reference lexer written from 3.18 (segmentation, token class, lexical validity); " +
 			"(iii) all string literal contents of length <= 3 (thorough 4) over {a, blank, #, ', \", \\, n, t, q, é} in both quote styles against the model's escape rules, concatenated / assigned and as the only literal of the program in 14 syntactic positions (operand of == != < >= on either side, if condition, match pattern and subject, index key, call / printf / contains argument, array element, object value, method receiver, && operand, return value) compared with the denoted string supplied by the input; (iv) numerals incl. leading zeros, every prefix of four 25-digit strings with the point at every place (1 300 numerals) against a math/big nearest-double oracle, string literals / names / regex literals of 255 ... 131 077 bytes, and every numeral-operator-numeral spelling without blanks; " +
-			"(v) every keyword with a letter, digit or underscore glued before or after it used as a variable; states = lexical classes and literal outcomes; non-trivial = escapes that yield a value",
+			"7 pairs of texts for the two places where a newline is NOT layout (directly after print / return, after a comma of a print list: it ends the statement); (v) every keyword with a letter, digit or underscore glued before or after it used as a variable; states = lexical classes and literal outcomes; non-trivial = escapes that yield a value",
 		Plan:  func(t fw.Tier) int { return ns*layoutParts + nt + 4 },
 		Bound: func(t fw.Tier) string { return "k=2 layout deviations (thorough: +k=3 over line-break deviations); token pairs and triples; strings <= 3 (4)" },
 		Assumptions: []string{"reference lexer mc/refsem/lex.go; numerals directly followed by '.' and non-ASCII bytes outside strings are not compared (3.18 / 7.1)", "hook VerifLex exposes the lexer's token stream", "math/big as nearest-double oracle"},
@@ -457,6 +487,10 @@ func init() {
 					c.Do(func() any { return s }, func() *fw.Violation { return c13NumeralCheck(c, n) })
 				}
 			case u == ns*layoutParts+nt+2:
+				for i := range c13PrintCommaPairs {
+					i := i
+					c.Do(func() any { return c13Spec{Form: "printcomma", Seed: i} }, func() *fw.Violation { return c13PrintComma(c, i) })
+				}
 				// literals and names longer than any 16-bit length
 				for _, n := range []int{255, 256, 65535, 65536, 65537, 70000, 131077} {
 					for _, q := range []string{"\"", "'"} {
@@ -498,6 +532,8 @@ func init() {
 				return c13StringCheck(c, s.Text, s.Q[0])
 			case "stringpos":
 				return c13StringPosCheck(c, s.Text, s.Q[0], s.Seed)
+			case "printcomma":
+				return c13PrintComma(c, s.Seed)
 			case "long":
 				return c13LongCheck(c, s.Seed, s.Q)
 			case "numeral":
